@@ -165,6 +165,129 @@ def triangle_local_laws(ctx, n):
     return fails, worst
 
 
+def rect_circulation(getH, a, b, axis, c, n):
+    """circulation of H around the axis-aligned rectangle cut out of the box [a, b] by the plane coordinate[axis] = c, as the four
+    line integrals along its sides (the form `rectCircZ4 / X4 / Y4` of lean/MagpyVerif/Lemmas/BoxLaws.lean), Gauss-Legendre with n
+    nodes per side; returns (sum, sum of |terms|)"""
+    x, w = gl(n)
+    i, j = [(1, 2), (2, 0), (0, 1)][axis]                        # the two in-plane axes in right-handed order
+    tot, mag = 0.0, 0.0
+    for (ax, fixed_ax, fixed, sgn) in ((i, j, a[j], 1.0), (j, i, b[i], 1.0), (i, j, b[j], -1.0), (j, i, a[i], -1.0)):
+        P = np.zeros((n, 3))
+        P[:, axis] = c
+        P[:, fixed_ax] = fixed
+        P[:, ax] = a[ax] + x * (b[ax] - a[ax])
+        f = getH(P)[:, ax] * w * (b[ax] - a[ax]) * sgn
+        tot += f.sum()
+        mag += np.abs(f).sum()
+    return tot, mag
+
+
+def tri_far_box(faces, a, b):
+    """float evaluation of `BoxLaws.TriFarBox` (Lemmas/BoxLawsTriangle.lean) for every face: the eight corners of the box [a, b] on one
+    side of the plane of the face with |N| >= m, 16 rho0^2 rho1^2 rho2^2 <= 1e16 m^2, 1e-30 l_i^2 |A|^2 < m^2; returns the smallest
+    distance of the box from a face plane (None when the condition fails for some face)"""
+    corners = np.array([[x, y, z] for z in (a[2], b[2]) for y in (a[1], b[1]) for x in (a[0], b[0])])
+    dmin = np.inf
+    for v0, v1, v2 in faces:
+        A = np.cross(v1 - v0, v2 - v0)
+        N = np.array([(v2 - c) @ np.cross(v1 - c, v0 - c) for c in corners])
+        if not (np.all(N > 0) or np.all(N < 0)):
+            return None
+        m = np.abs(N).min()
+        far2 = [sum(max((v[k] - a[k]) ** 2, (v[k] - b[k]) ** 2) for k in range(3)) for v in (v0, v1, v2)]
+        if not 16 * far2[0] * far2[1] * far2[2] <= 1e16 * m * m:
+            return None
+        for L in (v1 - v0, v2 - v1, v0 - v2):
+            if not 1e-30 * (L @ L) * (A @ A) < m * m:
+                return None
+        dmin = min(dmin, m / np.linalg.norm(A))
+    return float(dmin)
+
+
+def sheet_box_laws(ctx, n):
+    """Triangle sheets, Tetrahedra and TriangularMeshes with axis-aligned boxes / rectangles that AVOID the planes of all faces and
+    satisfy the proved sufficient condition `TriFarBox` face by face (Props/C14 triangle_box_flux_zero, triangle_rect_circulation_zero,
+    tetra_box_flux_zero, tetra_rect_circulation_zero, trimesh_row_box_flux_zero; boxes beside a sheet, INSIDE a body and outside it):
+    Gauss-Legendre flux of getB through the six faces and circulation of getH along the four sides must vanish.  Half of the cases
+    evaluate the object in its own frame (the axis-aligned situation of the theorems), the other half after a random rotation and
+    shift of the object (the box is then oblique in the frame of the kernel: beyond the theorems, same law)."""
+    import magpylib as magpy
+
+    rng, fails, worst, done, hyp_ok = ctx.rng, [], {}, 0, 0
+    for i in range(n):
+        nps = np.random.default_rng(rng.randrange(2**31))
+        cls = ["Triangle", "Tetrahedron", "TriangularMesh", "Tetrahedron"][i % 4]
+        want_inside = (i % 4 == 3) or (cls == "TriangularMesh" and rng.random() < 0.5)
+        src = make(cls, nps)
+        if cls == "Triangle":
+            v = np.asarray(src.vertices, float)
+            faces = [tuple(v)]
+        elif cls == "Tetrahedron":
+            v = np.asarray(src.vertices, float)
+            faces = [(v[0], v[2], v[1]), (v[0], v[1], v[3]), (v[1], v[2], v[3]), (v[0], v[3], v[2])]
+        else:
+            faces = [tuple(np.asarray(t, float)) for t in np.asarray(src.mesh)]
+            v = np.asarray(src.vertices, float)
+        size = float(np.ptp(v, axis=0).max())
+        centroid = v.mean(axis=0)
+        box = None
+        for _ in range(400):
+            if cls == "Triangle":
+                nn = np.cross(v[1] - v[0], v[2] - v[0])
+                w = nps.dirichlet(np.ones(3)) * nps.uniform(0.6, 1.5)
+                c = w @ v + nn / np.linalg.norm(nn) * size * nps.uniform(0.25, 1.2) * rng.choice([-1, 1])
+                half = nps.uniform(0.05, 0.3, 3) * size
+            elif want_inside:
+                w = nps.dirichlet(np.ones(len(v)) * 3.0)
+                c = 0.5 * (w @ v) + 0.5 * centroid
+                half = nps.uniform(0.01, 0.1, 3) * size * nps.uniform(0.2, 1.0)
+            else:
+                c = centroid + nps.uniform(-1.6, 1.6, 3) * size
+                half = nps.uniform(0.03, 0.2, 3) * size
+            d = tri_far_box(faces, c - half, c + half)
+            if d is None or d < (max(0.02 * size, 0.6 * half.max()) if want_inside else 0.12 * size):
+                continue
+            if cls != "Triangle":
+                inside = bool(np.linalg.norm(src.getJ(c)) > 0)
+                if inside != want_inside:
+                    continue
+            box = (c, half)
+            break
+        if box is None:
+            continue
+        hyp_ok += 1
+        c, half = box
+        moved = (i // 4) % 2 == 1
+        if moved:
+            rot, shift = R.random(rng=nps), nps.uniform(-2, 2, 3)
+            src.rotate(rot, anchor=0)
+            src.move(shift)
+            getB = lambda P: src.getB(rot.apply(P) + shift) @ rot.as_matrix()      # field components in the object's frame
+            getH = lambda P: src.getH(rot.apply(P) + shift) @ rot.as_matrix()
+        else:
+            getB, getH = (lambda P: src.getB(P)), (lambda P: src.getH(P))
+        tot, mag = box_flux(lambda P: getB(P), c, half, 32)
+        errs = {"flux": abs(tot) / (mag + 1e-300)}
+        for axis in range(3):
+            t2, m2 = rect_circulation(getH, c - half, c + half, axis, c[axis] + half[axis] * nps.uniform(-1, 1), 48)
+            errs[f"circ{'xyz'[axis]}"] = abs(t2) / (m2 + 1e-300)
+        done += 1
+        where = "beside" if cls == "Triangle" else ("inside" if want_inside else "outside")
+        for k, e in errs.items():
+            key = f"sheet-{'flux' if k == 'flux' else 'circulation'}:{cls}:{where}"
+            worst[key] = max(worst.get(key, 0.0), float(e))
+            if not e < 1e-6:
+                fails.append({"key": f"integral-law:{key}",
+                              "desc": f"{'net flux of B through a closed box' if k == 'flux' else 'circulation of H around an axis-aligned rectangle'} "
+                                      f"{where} a {cls}, off the planes of all faces, is not zero (relative {e:.2g})",
+                              "replay": {"class": cls, "source": repr(src), "vertices": v.tolist(), "centre": c.tolist(), "half": half.tolist(),
+                                         "moved": moved, "which": k, "rel": float(e)}})
+    worst["sheet-cases"] = done
+    worst["sheet-cases-with-proved-hypothesis"] = hyp_ok
+    return fails, worst
+
+
 def sweep(ctx, n):
     import magpylib as magpy
 
@@ -349,4 +472,10 @@ def sweep(ctx, n):
         f3, w3 = triangle_local_laws(ctx, max(6, n // 3))
     fails += f3
     worst["triangle-local-jacobian"] = w3
+    # Triangle / Tetrahedron / TriangularMesh: boxes and rectangles off the planes of all faces (Props/C14 triangle_box_flux_zero, …)
+    with warnings.catch_warnings():
+        warnings.simplefilter("ignore")
+        f4, w4 = sheet_box_laws(ctx, max(8, n // 3))
+    fails += f4
+    worst.update(w4)
     return fails, {"c14_cases": done, "c14_worst": {k: float(f"{v:.3g}") for k, v in worst.items()}}
